@@ -84,7 +84,7 @@ fn bad_command(rng: &mut Rng, sig: &Sig, g: &mut Gen) -> (String, &'static str) 
     let c = rng.pick(&sig.ctors).clone();
     let nonnull: Vec<&pgen::Ctor> = sig.ctors.iter().filter(|c| !c.args.is_empty()).collect();
     let rs = sig.rulesets[0].clone();
-    match rng.below(30) {
+    match rng.below(32) {
         0 => {
             // arity: one argument too many
             let mut args: Vec<String> = c.args.iter().map(|a| g.ground(rng, a, 0).to_string()).collect();
@@ -140,6 +140,24 @@ fn bad_command(rng: &mut Rng, sig: &Sig, g: &mut Gen) -> (String, &'static str) 
         26 => (format!("(rule ((= pv{} {})) ((panic \"boom\")) :ruleset {rs})\n(run {rs} 1)", rng.below(1000), g.ground(rng, &Ty::Eq(0), 0)), "runtime-panic-rule"),
         27 => ("(panic \"top-level\")".into(), "runtime-panic-toplevel"),
         28 => (format!("(function {0} (i64) i64 :no-merge)\n(set ({0} 1) 1)\n(set ({0} 1) 2)", fresh(rng, "nm")), "runtime-nomerge-conflict"),
+        29 | 30 => {
+            // a second rule under an existing name (different body and head): the set-up line declares
+            // the first one on both sessions, the rejected one must not replace it
+            let name = fresh(rng, "duprule");
+            let ri = rng.below(sig.rulesets.len());
+            let mk = |g: &mut Gen, rng: &mut Rng| -> String {
+                match g.rule(rng, ri) {
+                    Cmd::Rule { body, head, mut opts } => {
+                        opts.name = Some(name.clone());
+                        Cmd::Rule { body, head, opts }.to_string()
+                    }
+                    other => other.to_string(),
+                }
+            };
+            let first = mk(g, rng);
+            let second = mk(g, rng);
+            (format!("{first}\n{second}"), "duplicate-rule-name")
+        }
         _ => {
             // shadowing: a rule variable named like an existing global, or rebinding
             let gname = format!("${}shadow{}", sig.sorts[0], rng.below(1000));
@@ -225,10 +243,12 @@ pub fn run(a: &Args) -> Report {
                 "unknown-output-sort" => Some(format!("(function {} (i64) i64 :no-merge)", toks[1])),
                 "presort-unknown-arg" | "unknown-presort" => Some(format!("(sort {} (Vec i64))", toks[1])),
                 "combined-unknown-sub" => Some(format!("(ruleset {})", toks[1])),
+                // the continuation runs every ruleset, so a replaced rule would show
+                "duplicate-rule-name" => Some(sig.rulesets.iter().map(|r| format!("(run {r} 2)")).collect::<Vec<_>>().join("\n")),
                 _ => None,
             };
             if let Some(f) = follow {
-                s2.push(f);
+                s2.extend(f.lines().map(|l| l.to_string()));
             }
         }
         for _ in 0..(4 + rng.below(8)) {
